@@ -687,12 +687,9 @@ func sameValue(a, b ssa.Value) bool {
 	if a == b {
 		return true
 	}
-	for _, x := range reachingVals(a) {
-		for _, y := range reachingVals(b) {
-			if stripConv(x) == stripConv(y) {
-				return true
-			}
-		}
+	// the same single definition reaches both (a variable with several reaching definitions is compared as a variable below)
+	if ra, rb := reachingVals(a), reachingVals(b); len(ra) == 1 && len(rb) == 1 && stripConv(ra[0]) == stripConv(rb[0]) {
+		return true
 	}
 	pa, oka := loadOf(a)
 	pb, okb := loadOf(b)
